@@ -27,6 +27,7 @@ RULES = {
     "C19-X2": "every path reporting OK examined what follows the requested entry (comma or end of expression)",
     "C19-X3": "every path returning ERROR queued an error",
     "C19-X4": "range ends with different dimension counts => ERROR; dimension count and range flag stored on every OK path",
+    "C19-X5": "channelSpec: number ('!' number)*; a '!' that is not followed by a number is ERROR, no number at all is NO_MORE, OK only after a number that is not followed by '!'",
     "C19-X6": "channel list: NO_MORE only after the end of the expression was seen (malformed rest => ERROR with -170)",
 }
 
@@ -142,6 +143,58 @@ def rule_x1(ck, prog):
     BR.check_function(ck, prog, "C19-X1", "channelSpec", min_sites=1, only=lambda s: s.kind in ("store", "call"))
 
 
+def rule_x5(ck, prog):
+    f = prog.fn("channelSpec")
+    if f is None:
+        ck.anchor_lost("C19-X5", "channelSpec")
+        return
+    ec = prog.enumconst
+    OK, ERR, NOMORE = ec.get("SCPI_EXPR_OK"), ec.get("SCPI_EXPR_ERROR"), ec.get("SCPI_EXPR_NO_MORE")
+    st = K.site(f, "dimension-grammar", 0)
+    probs = []
+    rows = set()
+    for ps in P.summarize(f, max_visits=3):
+        seq = []
+        for e in ps.events:
+            if e[0] == "branch" and e[1].k == "CallExpr":
+                name = e[1].get("callee")
+                if name == "scpiLex_DecimalNumericProgramData":
+                    seq.append(("D", bool(e[2])))
+                elif name == "scpiLex_SpecificCharacter" and C.const_of(K.arg(e[1], 2)) == ord("!"):
+                    seq.append(("!", bool(e[2])))
+        if not seq or ps.ret is None:
+            continue
+        rv = ps.ret.v if ps.ret.kind == "const" else None
+        last = seq[-1]
+        if seq == [("D", False)]:
+            want, row = NOMORE, "nothing"
+        elif last == ("D", False) and len(seq) >= 2 and seq[-2] == ("!", True):
+            want, row = ERR, "dangling-!"
+        elif last == ("!", False) and len(seq) >= 2 and seq[-2] == ("D", True):
+            want, row = OK, "complete"
+        elif last == ("!", True) or last == ("D", True):
+            continue           # truncated by the visit bound
+        else:
+            want, row = None, "other"
+        rows.add(row)
+        if want is not None and rv != want:
+            names = {OK: "OK", ERR: "ERROR", NOMORE: "NO_MORE"}
+            probs.append("after %s channelSpec returns %s, expected %s" % (
+                " ".join("%s%s" % (k_, "+" if v_ else "-") for k_, v_ in seq[-3:]), names.get(rv, rv), names.get(want)))
+        if row == "complete":
+            stores = [C.store_target(e[1]).get("path") for e in ps.events if e[0] == "store"]
+            if "*dimensions" not in stores:
+                probs.append("an OK path does not store the dimension count")
+    if probs:
+        ck.violated("C19-X5", st, K.loc(f), sorted(set(probs))[0] + " (D = number recognised, ! = separator recognised): a malformed "
+                    "channel such as `(@1!)` is not refused", {"all": sorted(set(probs))})
+    elif not {"nothing", "dangling-!", "complete"} <= rows:
+        ck.anchor_lost("C19-X5", "rows of channelSpec: %s" % sorted(rows))
+    else:
+        ck.holds("C19-X5", st, K.loc(f), "no number: NO_MORE; number not followed by '!': OK; '!' not followed by a number: ERROR")
+    ck.analysed(f)
+
+
 def rule_x4(ck, prog, S):
     ec = prog.enumconst
     OK, ERR = ec.get("SCPI_EXPR_OK"), ec.get("SCPI_EXPR_ERROR")
@@ -214,6 +267,7 @@ def run(ck, fb, tier):
         rule_x1(ck, prog)
         rule_walkers(ck, prog, S)
         rule_x4(ck, prog, S)
+        rule_x5(ck, prog)
     if tier == "thorough":
         K.cross_config(ck, fb, "C19-XC", ['numericRange', 'channelRange', 'channelSpec', 'SCPI_ExprNumericListEntry', 'SCPI_ExprChannelListEntry'])
 
